@@ -2,6 +2,41 @@
 import algebra
 
 
+def param_store(v):
+    """parameter store of Const: module ParamStore explored by TLC, complete read-back compared on the real object"""
+    import vlib
+    from vlib import Infra
+    r = vlib.tlc("ParamStore", "ParamStore.cfg", timeout=900, coverage=False)
+    vlib.tlc_ok(r, "ParamStore")
+    if r.violated:
+        raise Infra("ParamStore violates %s (model defect)" % r.violated)
+    KIND = {"angle": 0, "phase": 1, "energy": 2}
+    lines = []
+    def aslist(x):      # TLC prints functions over 0..W as JSON objects with string keys
+        if isinstance(x, dict):
+            return [aslist(x[k]) for k in sorted(x, key=int)]
+        return x
+    for e in r.edges:
+        acts = ([e["prev"]] if e["n"] == 1 else []) + [e["act"]]
+        for fld in ("angle", "phase", "energy"):
+            e[fld] = aslist(e[fld])
+        W = len(e["energy"]) - 1
+        t = "%d %d " % (W, len(acts)) + " ".join("%d %d %d %d" % (KIND[a["k"]], a["i"], a["j"], a["v"]) for a in acts) + " " + e["out"] + " "
+        t += " ".join(str(x) for row in e["angle"] for x in row) + " " + " ".join(str(x) for row in e["phase"] for x in row) + " " + " ".join(str(x) for x in e["energy"])
+        lines.append(t)
+    exe = vlib.build_harness("param_replay", "plain")
+    rc, out, err = vlib.run_lines(exe, "\n".join(lines) + "\n", timeout=600)
+    done = [l for l in out if l.startswith("DONE")]
+    if rc != 0 or not done or int(done[0].split()[1]) != len(lines):
+        raise Infra("param_replay failed: %s %s" % (out[-3:], err[-500:]))
+    for l in out:
+        if l.startswith("MISMATCH"):
+            p = l.split()
+            v.violation("paramstore/" + p[2].split("(")[0], l, {"line": lines[int(p[1])]})
+    v.add("states", r.distinct); v.add("transitions", r.generated); v.add("traces_validated_against_impl", len(lines))
+    v.cov["param_store_sequences"] = len(lines)
+
+
 def run(v, tier, seed, replay):
     if replay:
         return algebra.replay(v, replay, 1024)
@@ -18,6 +53,7 @@ def run(v, tier, seed, replay):
                 dict(dims=[2, 3, 4, 5, 6], ops=["tob1", "tob0", "mixing"], invs=["LawMixing"], npat=2, nspec=40),
                 dict(dims=[2, 3, 4, 5], ops=["wrot"], invs=["LawMixing"], npat=1, nspec=8)]
     algebra.explore_and_replay(v, "C06", runs, tolf=1024, timeout=3000)
+    param_store(v)
     v.cov["rule"] = "Rotate(i,j,th,del): every index pair i<j of every dimension x (th,del) on the pi/4 lattice (all 64 residue pairs; negatives and >2pi in thorough) x every basis element; mixing matrix / RotateToB1 / RotateToB0 / Rotate(U) / UTransform(U) / UDaggerTransform(U) for single-plane, two-plane and pseudo-random angle assignments"
     v.assumptions.append("angles off the pi/4 lattice: kernels are polynomial in cos/sin of the angles, every coefficient is exercised on the lattice (pi/4 has sin, cos both non-zero)")
     return "model_checking"
